@@ -397,11 +397,11 @@ Section Inv.
     (forall gn k f, In gn gens -> lookup k (gen_table gn) = Some (GFunc f) -> In f funcs) ->
     forall g0 g convs tr, GS g0 g -> Forall is_gen_ev tr ->
     let '(g', convs', tr', err) := run_gens g gens ks convs tr in
-    GS g0 g' /\ Forall is_gen_ev tr'.
+    GS g0 g' /\ Forall is_gen_ev tr' /\ (err <> None -> tr' <> []).
   Proof.
     intros Hg g0 g convs tr G T. unfold run_gens.
     set (P := fun acc : rg * list fdecl * list event * option Z =>
-                let '(g', _, tr', _) := acc in GS g0 g' /\ Forall is_gen_ev tr').
+                let '(g', _, tr', err) := acc in GS g0 g' /\ Forall is_gen_ev tr' /\ (err <> None -> tr' <> [])).
     enough (Q : P (fold_left
       (fun (acc : rg * list fdecl * list event * option Z) (k : vkey) =>
          let '(g1, convs0, tr0, err) := acc in
@@ -440,14 +440,17 @@ Section Inv.
     { intros k. induction gl as [|gn gl IH]; intros Sub acc Pa; cbn [fold_left]; [exact Pa|].
       apply IH; [intros gn' A; apply Sub; right; exact A|].
       destruct acc as [[[g2 c2] t2] e2]. destruct e2; [exact Pa|].
-      destruct Pa as [G2 T2].
+      destruct Pa as (G2 & T2 & _).
       assert (T3 : Forall is_gen_ev (t2 ++ [EGen (gen_id gn) k])).
       { apply Forall_app. split; [exact T2|]. constructor; [exact I|constructor]. }
+      assert (N3 : forall o : option Z, o <> None -> t2 ++ [EGen (gen_id gn) k] <> []).
+      { intros _ _ C. apply app_eq_nil in C. destruct C as [_ C]. discriminate. }
       cbv zeta. destruct (lookup k (gen_table gn)) as [[| e | f]|] eqn:L; unfold P;
-        try (split; [exact G2|exact T3]).
-      split; [|exact T3]. apply GS_func_graph; [|exact G2].
+        try (split; [exact G2|split; [exact T3|apply N3]]).
+      split; [|split; [exact T3|apply N3]]. apply GS_func_graph; [|exact G2].
       eapply Hg; [apply Sub; left; reflexivity|exact L]. }
-    assert (P0 : P (g, convs, tr, None)) by (simpl; auto).
+    assert (P0 : P (g, convs, tr, None)).
+    { split; [exact G|]. split; [exact T|]. intros C. contradiction C; reflexivity. }
     revert P0. generalize (g, convs, tr, @None Z). induction ks as [|k ks IH]; intros acc Pa; cbn [fold_left]; [exact Pa|].
     apply IH. destruct acc as [[[g1 c1] t1] e1]. destruct e1; [exact Pa|].
     destruct (value_of_vertex k); [|exact Pa].
@@ -818,7 +821,7 @@ Section Full.
 
   Lemma full_graph_facts t :
     (exists s, full_graph u f b false t = TapeErr s) \/
-    (exists e tr, full_graph u f b false t = Ok (inr (XGen e), tr) /\ Forall is_gen_ev tr) \/
+    (exists e tr, full_graph u f b false t = Ok (inr (XGen e), tr) /\ Forall is_gen_ev tr /\ tr <> []) \/
     (exists fg, full_graph u f b false t = Ok (inl fg, fg_trace fg) /\ full_ok fg).
   Proof.
     rewrite full_graph_eq.
@@ -839,11 +842,12 @@ Section Full.
       apply in_flat_map. exists (k, GFunc f'). split; [apply lookup_In; exact L|left; reflexivity]. }
     pose proof (@run_gens_spec ins funcs (b_gens b) ks Hg _ _ (b_convs b) [] G3 (Forall_nil _)) as RG.
     destruct (run_gens (stage3 f b) (b_gens b) ks (b_convs b) []) as [[[g4 c4] tr4] [e|]].
-    - left. exists e, tr4. split; [reflexivity|apply RG].
+    - left. exists e, tr4. split; [reflexivity|]. destruct RG as (_ & T4 & N4).
+      split; [exact T4|apply N4; discriminate].
     - right. exists (mkFG (steps u b g4) (vals_of b) (tk f) (g_out_keys (stage1 f) (tk f))
                            (map fst (input_vertices b)) c4 tr4 t').
       split; [reflexivity|].
-      destruct RG as [G4 T4].
+      destruct RG as (G4 & T4 & _).
       destruct (steps_facts (proj1 G4)) as [G5 A5].
       split; [exact T4|]. split; [reflexivity|]. split; [reflexivity|]. split; [reflexivity|].
       cbn [fg_g]. split; [eapply GS_trans; [exact G4|exact G5]|].
@@ -974,7 +978,7 @@ Section CG.
 
   Lemma call_graph_exact t :
     (exists s, call_graph u f b false t = TapeErr s) \/
-    (exists e tr, call_graph u f b false t = Ok (inr (XGen e), tr) /\ Forall is_gen_ev tr) \/
+    (exists e tr, call_graph u f b false t = Ok (inr (XGen e), tr) /\ Forall is_gen_ev tr /\ tr <> []) \/
     (exists cg, call_graph u f b false t = Ok (inl cg, cg_trace cg) /\ cg_ok cg).
   Proof.
     unfold call_graph.
